@@ -252,3 +252,32 @@ func forall(lo, hi int, f func(int) bool) bool {
 //@   ensures forall(0, len(sm.list), func(i int) bool { return forall(0, i, func(j int) bool { return sm.list[j] < sm.list[i] }) })
 //@   loop 0:
 //@     invariant len(values) == len(sm.list) && forall(0, idx_, func(j int) bool { return values[j] == sm.m[sm.list[j]] })
+
+// ---- Set mutators. setInv: the map holds exactly the elements of the list; no duplicates.
+//@ define setInv(s) := s != nil &&
+//@        forall(func(xx_ T) bool { return has(s.m, xx_) ==> exists(0, len(s.l), func(jj_ int) bool { return s.l[jj_] == xx_ }) }) &&
+//@        forall(0, len(s.l), func(ii_ int) bool { return has(s.m, s.l[ii_]) && forall(0, ii_, func(jj_ int) bool { return s.l[jj_] != s.l[ii_] }) })
+
+//@ func NewSet
+//@   property C19 C18 C09
+//@   ensures fresh(result) && setInv(result) && len(result.l) == 0 && forall(func(x T) bool { return !has(result.m, x) })
+
+//@ func Set.Add
+//@   property C19 C18 C09
+//@   requires setInv(s)
+//@   modifies s.m, s.l
+//@   ensures setInv(s)
+//@   ensures forall(func(x T) bool { return has(s.m, x) == (has(old(s.m), x) || exists(0, len(v), func(k int) bool { return v[k] == x })) })
+//@   ensures len(s.l) >= old(len(s.l)) && forall(0, old(len(s.l)), func(j int) bool { return s.l[j] == old(s.l)[j] })
+//@   loop 0:
+//@     invariant setInv(s)
+//@     invariant forall(func(x T) bool { return has(s.m, x) == (has(old(s.m), x) || exists(0, idx_, func(k int) bool { return coll_[k] == x })) })
+//@     invariant len(s.l) >= old(len(s.l)) && forall(0, old(len(s.l)), func(j int) bool { return s.l[j] == old(s.l)[j] })
+
+//@ func SetOf
+//@   property C19 C18 C09
+//@   ensures fresh(result) && setInv(result)
+//@   ensures forall(func(x T) bool { return has(result.m, x) == exists(0, len(vs), func(k int) bool { return vs[k] == x }) })
+//@   loop 0:
+//@     invariant fresh(s) && setInv(s)
+//@     invariant forall(func(x T) bool { return has(s.m, x) == exists(0, idx_, func(k int) bool { return vs[k] == x }) })
